@@ -298,7 +298,10 @@ def check(ctx, text, origin):
 
 
 COMMENTS = [('block', '/* c */'), ('block_multiline', '/* c\n d */'), ('line', '// c\n'), ('block_crlf', '/*\r\n*/'),
-            ('empty_block', '/**/'), ('line_empty', '//\n'), ('block_stars', '/***/')]
+            ('empty_block', '/**/'), ('line_empty', '//\n'), ('block_stars', '/***/'),
+            # the body of a comment is part of it: trailing / leading white space, a tab, NBSP, nested openers
+            ('line_trailing_blanks', '// c  \n'), ('line_trailing_tab', '//c\t\n'), ('line_nbsp', '// c\xa0\n'),
+            ('block_padded', '/*  c  */'), ('block_trailing_blank_lines', '/* c \n \n*/'), ('line_openers', '// /* c\n')]
 
 
 def with_comment(toks, i, comment):
